@@ -1194,8 +1194,12 @@ void NifFile::TrimTexturePaths() {
 				break;
 		}
 
-		// Remove all backslashes from the front
-		tex = std::regex_replace(tex, std::regex("^\\\\+"), "");
+		// Remove all backslashes from the front (and the whitespace they may expose when nothing is
+		// going to be put in front of the path)
+		if (addsTexturesPrefix || isTerrain)
+			tex = std::regex_replace(tex, std::regex("^\\\\+"), "");
+		else
+			tex = std::regex_replace(tex, std::regex("^[\\\\\\s]+"), "");
 
 		if (!hdr.GetVersion().IsOB() && !hdr.GetVersion().IsSpecial() && is_relative_path(tex)) {
 			// If the path doesn't start with "textures\", add it to the front
